@@ -6,7 +6,7 @@ from vf.irparse import IntT, FpT
 
 ID = 'C28'
 LEVEL = 'other'
-TUS = ['src/engine/engine_sensor.c', 'src/engine/engine_util_blas.c', 'src/engine/engine_util_misc.c']
+TUS = ['src/engine/engine_sensor.c', 'src/engine/engine_util_blas.c', 'src/engine/engine_util_misc.c', 'src/engine/engine_core_util.c', 'src/engine/engine_util_spatial.c']
 EXPLANATION = ('llsym (real-algebraic) runs the real mj_sensorPos / mj_sensorVel (with the real per-sensor compute functions and apply_cutoff) on models with two sensors of the direct-read kinds '
                '(jointpos, tendonpos, clock, jointvel, tendonvel) whose address, object id, cutoff and datatype are symbolic: each sensor writes exactly sensordata[adr .. adr+dim) - every other cell '
                'of sensordata keeps its value - with the documented source quantity, clamped to [-cutoff, cutoff] for REAL data, to (-inf, cutoff] for POSITIVE data, unclamped when cutoff <= 0; '
@@ -16,7 +16,7 @@ OUTSIDE = 'frame, inertial, force/torque, touch, subtree, rangefinder, contact s
 ASSUMPTIONS = ['real-number semantics', 'sensor_adr + dim within sensordata and sensors do not overlap (compiler invariant)', 'sleep disabled, no history']
 BUDGET = {'quick': 400, 'thorough': 1500}
 _c = {}
-SUP = ['src/engine/engine_util_blas.c', 'src/engine/engine_util_misc.c', 'src/engine/engine_util_errmem.c']
+SUP = ['src/engine/engine_util_blas.c', 'src/engine/engine_util_misc.c', 'src/engine/engine_util_errmem.c', 'src/engine/engine_core_util.c', 'src/engine/engine_util_spatial.c']
 
 
 def mod():
@@ -87,10 +87,111 @@ def unit_sensors(tier, stage, kinds, disabled=0):
     return ck
 
 
+def cross(a, b): return [a[1] * b[2] - a[2] * b[1], a[2] * b[0] - a[0] * b[2], a[0] * b[1] - a[1] * b[0]]
+
+
+def unit_framevel(tier, objkind, refkind, oid, rid):
+    """framelinvel / frameangvel (type symbolic) of a site or body frame relative to a symbolic reference frame id (-1: none) on two moving bodies"""
+    ck = Checker('framevel_%s%d_%s%d' % (objkind, oid, refkind, rid), tier, timeout_s=120, semantics='real')
+    L = lay(); K = build.enum_values('mjSENS_'); K.update(build.enum_values('mjSTAGE_')); K.update(build.enum_values('mjDATATYPE_')); KO = build.enum_values('mjOBJ_')
+    w = W.World('real')
+    nb = 3; nsite = 2; nd = 4
+    M, _ = W.full_struct(w, L, 'mjModel_', 'MJMODEL_POINTERS', {'nsensor': 1, 'nsensordata': nd, 'nbody': nb, 'nsite': nsite, 'nv': 2}, 'm', default_size=0,
+                         symbolic=('sensor_type',),
+                         values={'sensor_refid': [rid], 'sensor_objid': [oid], 'sensor_needstage': [K['mjSTAGE_VEL']], 'sensor_dim': [3], 'sensor_adr': [0], 'sensor_datatype': [K['mjDATATYPE_REAL']], 'sensor_cutoff': [0.0],
+                                 'sensor_objtype': [KO['mjOBJ_' + objkind]], 'sensor_reftype': [KO['mjOBJ_' + refkind]],
+                                 'site_bodyid': [1, 2], 'body_weldid': [0, 1, 2], 'body_dofnum': [0, 1, 1], 'body_rootid': [0, 1, 1]})
+    D, _ = W.full_struct(w, L, 'mjData_', 'MJDATA_POINTERS', {'nsensordata': nd, 'nbody': nb, 'nsite': nsite, 'nv': 2}, 'd', default_size=0,
+                         symbolic=('sensordata', 'cvel', 'subtree_com', 'site_xpos', 'site_xmat', 'xpos', 'xmat', 'xipos', 'ximat'))
+    M.set('opt.disableflags', 0); M.set('opt.enableflags', 0)
+    ty = M.arrays['sensor_type'][3][0]; refid = z3.IntVal(rid); objid = z3.IntVal(oid)
+    nobj = nsite if objkind == 'SITE' else nb; nref = nsite if refkind == 'SITE' else nb
+    lo = 0 if objkind == 'SITE' else 1     # bodies 1, 2 move; the world body is covered as a reference only
+    pre = [z3.Or(ty == K['mjSENS_FRAMELINVEL'], ty == K['mjSENS_FRAMEANGVEL'])]
+    sd0 = D.arrays['sensordata'][3]
+    ex = llsym.Exec(mod(), fpmode='real', loop_bound=8)
+    st = w.to_state(ex); st.pc += pre
+    res = ex.run('@mj_sensorVel', [w.P(M.o), w.P(D.o)], st)
+    ck.note_results(ex, res)
+    args = [('ptr', (M.o, 0)), ('ptr', (D.o, 0))]
+    dec = lambda mdl: {'type': W.evalnum(mdl, ty), 'objid': oid, 'refid': rid}
+    cvel = D.arrays['cvel'][3]; com = D.arrays['subtree_com'][3]
+    def frame(kind, idx):
+        """(position, rotation rows, 6D velocity [ang, lin] at the frame origin in world axes) of frame idx, from first principles"""
+        if kind == 'SITE': p = D.arrays['site_xpos'][3][3 * idx:3 * idx + 3]; Rm = D.arrays['site_xmat'][3][9 * idx:9 * idx + 9]; b = [1, 2][idx]
+        elif kind == 'XBODY': p = D.arrays['xpos'][3][3 * idx:3 * idx + 3]; Rm = D.arrays['xmat'][3][9 * idx:9 * idx + 9]; b = idx
+        else: p = D.arrays['xipos'][3][3 * idx:3 * idx + 3]; Rm = D.arrays['ximat'][3][9 * idx:9 * idx + 9]; b = idx
+        if b == 0: return p, Rm, [z3.RealVal(0)] * 3, [z3.RealVal(0)] * 3       # world body: no dofs
+        wv = cvel[6 * b:6 * b + 3]; lv = cvel[6 * b + 3:6 * b + 6]; c = com[3:6]    # root of bodies 1, 2 is body 1
+        arm = [p[k] - c[k] for k in range(3)]; cr = cross(wv, arm)
+        return p, Rm, wv, [lv[k] + cr[k] for k in range(3)]
+    def sel(idx, n, f):
+        out = f(n - 1)
+        for q in range(n - 2, -1, -1):
+            fq = f(q); out = [z3.If(idx == q, a, b) for a, b in zip(fq, out)]
+        return out
+    def flat(fr): return list(fr[0]) + list(fr[1]) + list(fr[2]) + list(fr[3])
+    O = flat(frame(objkind, oid)); po, Ro, wo, vo = O[0:3], O[3:12], O[12:15], O[15:18]
+    Rf = flat(frame(refkind, max(rid, 0))); pr, Rr, wr, vr = Rf[0:3], Rf[3:12], Rf[12:15], Rf[15:18]
+    dw = [wo[k] - wr[k] for k in range(3)]
+    rv = [po[k] - pr[k] for k in range(3)]; cr = cross(wr, rv)
+    dv = [vo[k] - vr[k] - cr[k] for k in range(3)]
+    RT = lambda Rm, v: [Rm[0 + k] * v[0] + Rm[3 + k] * v[1] + Rm[6 + k] * v[2] for k in range(3)]
+    ang = [wo[k] if rid < 0 else RT(Rr, dw)[k] for k in range(3)]
+    lin = [vo[k] if rid < 0 else RT(Rr, dv)[k] for k in range(3)]
+    for r in res:
+        if r.kind != 'return': continue
+        out = [ex.load(r.state, w.P(D.arrays['sensordata'][0], 8 * c), FpT('double')) for c in range(nd)]
+        rp = W.make_replay(so(), 'mj_sensorVel', w, args, outputs=[('sensordata%d' % c, D.arrays['sensordata'][0], 8 * c, 'f64', out[c]) for c in range(nd)], semantics='real')
+        for k in range(3):
+            ck.prove('frame velocity sensor component %d = R_ref^T (v_obj - v_ref - w_ref x (p_obj - p_ref)) / R_ref^T (w_obj - w_ref); world-frame value without a reference' % k, r.state.pc,
+                     out[k] == z3.If(ty == K['mjSENS_FRAMELINVEL'], lin[k], ang[k]), site='mj_sensorVel:framevel', decode=dec, replay=rp)
+        ck.prove('cell past the sensor untouched', r.state.pc, out[3] == sd0[3], site='mj_sensorVel:framevel-footprint', decode=dec, replay=rp)
+    ck.reach('both sensor types', pre)
+    ck.memory_obligations(res, decode=dec)
+    return ck
+
+
+def unit_cutoff(tier, dim):
+    """the real static apply_cutoff with the sensor TYPE, datatype, cutoff and data all symbolic"""
+    ck = Checker('apply_cutoff_dim%d' % dim, tier, timeout_s=60, semantics='real')
+    L = lay(); K = build.enum_values('mjSENS_'); K.update(build.enum_values('mjDATATYPE_')); K.update(build.enum_values('mjNSENS'))
+    w = W.World('real')
+    M, _ = W.full_struct(w, L, 'mjModel_', 'MJMODEL_POINTERS', {'nsensor': 2, 'nsensordata': dim}, 'm', default_size=0,
+                         symbolic=('sensor_type', 'sensor_datatype', 'sensor_cutoff'), values={'sensor_dim': [1, dim]})
+    ty = M.arrays['sensor_type'][3][1]; dty = M.arrays['sensor_datatype'][3][1]; cut = M.arrays['sensor_cutoff'][3][1]
+    do, data = w.arr('data', 'f64', dim)
+    ntypes = max(v for k, v in K.items() if k.startswith('mjSENS_')) + 1
+    pre = [ty >= 0, ty < ntypes, dty >= 0, dty <= max(v for k, v in K.items() if k.startswith('mjDATATYPE_'))]
+    ex = llsym.Exec(mod(), fpmode='real', loop_bound=dim + 2)
+    st = w.to_state(ex); st.pc += pre
+    res = ex.run('@apply_cutoff', [w.P(M.o), z3.BitVecVal(1, 32), w.P(do)], st)
+    ck.note_results(ex, res)
+    args = [('ptr', (M.o, 0)), ('i32', 1), ('ptr', (do, 0))]
+    dec = lambda mdl: {'type': W.evalnum(mdl, ty), 'datatype': W.evalnum(mdl, dty), 'cutoff': str(W.evalnum(mdl, cut)), 'data': [str(W.evalnum(mdl, x)) for x in data]}
+    skip = z3.Or(cut <= 0, ty == K['mjSENS_CONTACT'], ty == K['mjSENS_GEOMFROMTO'])
+    for r in res:
+        if r.kind != 'return': continue
+        out = [ex.load(r.state, w.P(do, 8 * j), FpT('double')) for j in range(dim)]
+        rp = W.make_replay(so(), 'apply_cutoff', w, args, outputs=[('data%d' % j, do, 8 * j, 'f64', out[j]) for j in range(dim)], semantics='real')
+        for j in range(dim):
+            x = data[j]
+            want = z3.If(skip, x, z3.If(dty == K['mjDATATYPE_REAL'], z3.If(x < -cut, -cut, z3.If(x > cut, cut, x)), z3.If(dty == K['mjDATATYPE_POSITIVE'], z3.If(x > cut, cut, x), x)))
+            ck.prove('apply_cutoff: data[%d] clamped to [-cutoff, cutoff] (REAL) / (-inf, cutoff] (POSITIVE); untouched for cutoff <= 0, axis/quaternion data, contact and fromto sensors' % j,
+                     r.state.pc, out[j] == want, site='apply_cutoff:law', decode=dec, replay=rp)
+    ck.reach('a fromto sensor with positive cutoff', pre + [ty == K['mjSENS_GEOMFROMTO'], cut > 0])
+    ck.memory_obligations(res, decode=dec)
+    return ck
+
+
 def units(tier):
     u = [('pos_jointpos_clock', 'unit_sensors', {'stage': 'Pos', 'kinds': ['jointpos', 'clock']}), ('pos_tendonpos_jointvel', 'unit_sensors', {'stage': 'Pos', 'kinds': ['tendonpos', 'jointvel']}),
          ('vel_jointvel_tendonvel', 'unit_sensors', {'stage': 'Vel', 'kinds': ['jointvel', 'tendonvel']}), ('vel_jointpos_jointvel', 'unit_sensors', {'stage': 'Vel', 'kinds': ['jointpos', 'jointvel']}),
          ('pos_disabled', 'unit_sensors', {'stage': 'Pos', 'kinds': ['jointpos', 'clock'], 'disabled': 1})]
+    fv = [('SITE', 'SITE', 1, 0), ('SITE', 'SITE', 0, 1), ('SITE', 'SITE', 1, -1), ('SITE', 'XBODY', 0, 2), ('SITE', 'XBODY', 1, 0), ('XBODY', 'SITE', 2, 0)]
+    if tier != 'quick': fv += [('SITE', 'SITE', 0, 0), ('SITE', 'XBODY', 1, 1), ('XBODY', 'XBODY', 1, 2), ('XBODY', 'XBODY', 2, -1), ('BODY', 'BODY', 2, 1), ('BODY', 'SITE', 1, 1), ('SITE', 'BODY', 0, 2)]
+    u += [('framevel_%s%d_%s%d' % (a, i, b, j), 'unit_framevel', {'objkind': a, 'refkind': b, 'oid': i, 'rid': j}) for a, b, i, j in fv]
+    u += [('apply_cutoff_dim%d' % d, 'unit_cutoff', {'dim': d}) for d in ((1, 3) if tier == 'quick' else (1, 3, 6))]
     if tier == 'thorough':
         import itertools
         for a, b in itertools.permutations(['jointpos', 'tendonpos', 'clock'], 2): u.append(('pos_%s_%s' % (a, b), 'unit_sensors', {'stage': 'Pos', 'kinds': [a, b]}))
